@@ -132,7 +132,9 @@ impl SchedulerCore {
                 .for_each(|blocked| {
                     if let Some(blocked) = blocked.upgrade() {
                         {
-                            let _ready = blocked.ready.lock().expect("Background job ready lock");
+                            // (a thread whose own job panicked poisons this lock as it leaves sync(): that is no reason for whoever hands
+                            // the queue back to panic as well, with the queue locked)
+                            let _ready = blocked.ready.lock().unwrap_or_else(|poisoned| poisoned.into_inner());
                             blocked.rescheduled.store(true, atomic::Ordering::SeqCst);
                         }
                         blocked.wakeup.notify_one();
